@@ -1,5 +1,6 @@
 import Driver.C16
 import Driver.Run
+import Driver.C10
 
 open Driver
 
@@ -10,7 +11,9 @@ def main (args : List String) : IO Unit :=
   | ["c16"] => runLoop () (fun st toks => match toks with
       | "cmp" :: a => (st, c16 a)
       | _ => (st, "bad-op"))
+  | ["heap"] => runLoop ({} : HeapSt) heapStep
   | ["par"] => runLoop ({} : Driver.Run.Sys) Driver.Run.parStep
   | ["seq"] => runLoop ({} : Driver.Run.SeqSys) Driver.Run.seqStep
+  | ["serial2"] => runLoop ({} : Driver.Run.Serial2) Driver.Run.serial2Step
   | ["serial"] => runLoop ({} : Driver.Run.SerialSys) Driver.Run.serStep
   | _ => IO.eprintln "usage: driver <mode>"
